@@ -143,3 +143,13 @@ Definition ftype_in (t : ftype) (l : list ftype) : bool := existsb (ftype_eqb t)
    ZeroDivisionError for b = 0 *)
 Definition py_round_div (a b nd : Z) : result Z :=
   if (b =? 0)%Z then Err ZeroDivisionError else Ok (pyround_div a b nd).
+
+(* ---- JSON-like values (Any / Dict[str, Any]) ---- *)
+(* d[k] = v on a dict created in the function *)
+Definition aval_set (d : aval) (k : string) (v : aval) : aval :=
+  match d with VMap kv => VMap (py_dict_set String.eqb kv k v) | _ => d end.
+Definition any_of_data (d : ndata) : aval :=
+  match d with
+  | DStr s => VStr s | DInt z => VInt z | DFloat r => VFloat r | DBool b => VBool b
+  | DOp o => VStr (astop_value o)
+  end.
